@@ -26,6 +26,9 @@ func evalEmbeddedStr(node *ast.EmbeddedStr, env *object.Env) object.PanObject {
 		sSym := object.NewPanStr("S")
 		evaluatedS := builtInCallProp(env, object.EmptyPanObjPtr(),
 			object.EmptyPanObjPtr(), evaluated, sSym)
+		if err, ok := evaluatedS.(*object.PanErr); ok {
+			return appendStackTrace(err, node.Source())
+		}
 
 		evaluatedStr, ok := object.TraceProtoOfStr(evaluatedS)
 		if !ok {
